@@ -617,8 +617,8 @@ def funMatch(args, **options):
             return "true"
         else:
             return "false"
-    except re.error as e:
-        raise ParseError("Invalid $(match) regex '{}': {}".format(e.pattern, e))
+    except (re.error, OverflowError, IndexError, RecursionError) as e:
+        raise ParseError("Invalid $(match) regex '{}': {}".format(args[1], e))
 
 def funIfThenElse(args, **options):
     if len(args) != 3: raise ParseError("if-then-else expects three arguments")
@@ -700,8 +700,8 @@ def funResubst(args, **options):
 
     try:
         return re.sub(args[0], args[1], args[2], flags=flags)
-    except re.error as e:
-        raise ParseError("Invalid $(resubst) regex '{}': {}".format(e.pattern, e))
+    except (re.error, OverflowError, IndexError, RecursionError) as e:
+        raise ParseError("Invalid $(resubst) regex '{}' or replacement '{}': {}".format(args[0], args[1], e))
 
 # Attention: do *not* add any new functions here. That will break existing
 # plugins that define a function with the same name. Use EXTRA_STRING_FUNS for
